@@ -101,13 +101,14 @@ func VerifC17_StaleOnlyAfterTwoPeriods() {
 	} else {
 		verif.Assert("setup", lfs.Chtimes(lockDir, stamp, stamp) == nil)
 	}
+	// natively a little real time passes around the call: bracket the decision instant
+	before := time.Since(stamp)
 	stale := B.lock.IsStale()
-	verif.Observe("stale", stale)
+	after := time.Since(stamp)
 	if stale {
-		verif.Assert("stale_only_after_more_than_two_periods", age > 2*vPeriod)
-	}
-	if age >= 2*vPeriod+time.Millisecond {
-		verif.Assert("older_than_two_periods_is_stale", stale)
+		verif.Assert("stale_only_after_more_than_two_periods", after.Milliseconds() > 2*vPeriod.Milliseconds())
+	} else {
+		verif.Assert("older_than_two_periods_is_stale", before.Milliseconds() <= 2*vPeriod.Milliseconds())
 	}
 	// a failing backend must never make a lock look stale
 	lfs.before = func(op *vOp) error { return commonerrors.ErrUnexpected }
